@@ -13,6 +13,8 @@ Layer 2 (cache refinement, abstract): coq/Prep/{Cache,CacheProofs}.v proved here
 import json, os, struct, sys
 import vlib
 from props import c08lib as L
+from props import c08wire as CW
+from props import wirelib as W
 
 COQ_FILES = ["Prep/Codec.v", "Prep/CodecProofs.v", "Prep/CodecObs.v", "Prep/Cache.v", "Prep/CacheProofs.v", "Prep/CacheObs.v", "Prep/Props.v"]
 PRE = "From PV Require Import Prep.Codec Prep.CodecObs.\nFrom Coq Require Import ZArith NArith List Bool. Import ListNotations. Open Scope Z_scope."
@@ -771,6 +773,151 @@ def wire_cases(seed=1, n=50):
     return progs
 
 
+# ------------------------------------------------------------------------------------------------ layer 2 on the wire
+F11 = {
+    "F11a": "F11a-failed-parse-leaves-later-parse-cached",
+    "F11b": "F11b-close-then-parse-same-batch",
+    "F11c": "F11c-task-dies-in-sync-arm-poisons-server-cache",
+    "F11d": "F11d-bind-renamed-at-buffer-time-ensure-at-sync",
+    "F11e": "F11e-more-statements-in-a-batch-than-cache",
+    "F11f": "F11f-client-deallocate-all",
+    "F11g": "F11g-failed-parse-stays-in-client-map-close-skipped",
+    "lenient": "L-unknown-name-disconnects/close-unnamed-kept",
+}
+
+
+def classify_gap(prog):
+    """which known gap(s) of c08_refines_direct a program with guard = false can run into (syntactic classes)"""
+    k, cls = prog["k"], set()
+    sts = {o["st"] for o in prog["ops"] if o["op"] == "Parse"}
+    if any(90 <= s <= 97 for s in sts):
+        cls |= {"F11a", "F11g"}
+    if 99 in sts:
+        cls.add("F11f")
+    batch = {}
+    tabs = {}
+    for o in prog["ops"]:
+        kd = o["op"]
+        if kd in ("Sync", "Cleanup"):
+            if kd == "Sync":
+                b = batch.pop(o["c"], [])
+                seen, names = set(), set()
+                for x in b:
+                    if x["op"] == "Parse":
+                        if ("C", x["n"]) in seen:
+                            cls |= {"F11b", "F11c"}
+                        if ("B", x["n"]) in seen or ("P", x["n"]) in seen:
+                            cls.add("F11d")
+                        seen.add(("P", x["n"])); names.add(x["n"])
+                        tabs.setdefault(o["c"], set()).add(x["n"])
+                    elif x["op"] in ("Bind", "Describe"):
+                        if x["n"] not in tabs.get(o["c"], set()) or ("C", x["n"]) in seen:
+                            cls.add("lenient")
+                        seen.add(("B", x["n"])); names.add(x["n"])
+                    elif x["op"] == "Close":
+                        seen.add(("C", x["n"]))
+                        if x["n"] == 0:
+                            cls.add("lenient")
+                    elif x["op"] == "Execute" and not any(t == "B" for t, _ in seen):
+                        cls.add("lenient")
+                for x in b:
+                    if x["op"] == "Close":
+                        tabs.get(o["c"], set()).discard(x["n"])
+                if len(names) > k:
+                    cls.add("F11e")
+        else:
+            batch.setdefault(o["c"], []).append(o)
+    return cls
+
+
+def pynorm(obs_list):
+    """python twin of Cache.norm_obs on one client's observations"""
+    out = []
+    for kind, rs in obs_list:
+        if kind == "Killed":
+            out.append("Killed")
+        else:
+            data = [r for r in rs if r == "RErr" or (isinstance(r, tuple) and r[0] in ("RRow", "RDescr"))]
+            out.append((tuple(data), rs.count("R1"), rs.count("R2"), rs.count("R3"), rs.count("RZ")))
+    return out
+
+
+def wire_tie(run, quick, extra=()):
+    ok, blog, bins = vlib.cargo_build(["wire"])
+    if not ok:
+        run.violation("tie-broken", "wire harness does not build against /repo", {"correspondence": "wire harness build", "log": blog[-2000:]}, found_input=False)
+        return {}
+    wire = bins["wire"]
+    rng = run.rng
+    progs = [{"name": n, "k": k, "servers": ns, "ops": CW.atomicize(ops)} for (n, k, ns, ops, _) in WITNESSES] + \
+            [{"name": n, "k": k, "servers": ns, "ops": CW.atomicize(ops)} for (n, k, ns, ops) in FINE] + list(extra)
+    nhand = len(progs)
+    for i in range(70 if quick else 1200):
+        k = rng.choice([1, 1, 2, 2, 8])
+        ns = rng.choice([1, 2, 3])
+        wild = i % 3 == 2
+        ops = CW.atomicize(gen_program(rng, rng.choice([2, 2, 3]), ns, k, rng.choice([5, 8, 12]) if not wild else rng.choice([8, 14, 20]), wild))
+        if any(o["op"] == "Sync" for o in ops):
+            progs.append({"name": "gen%d%s" % (i, "w" if wild else ""), "k": k, "servers": ns, "ops": ops})
+    preds = predict(progs, "c08wt")
+    res = W.run_scenarios(wire, [CW.scenario(p) for p in progs], timeout=120)
+    st = {"scenarios": len(progs), "hand_made": nhand, "agree_with_model": 0, "set_aside_reconnect": 0, "guard_true": 0, "guard_true_like_direct": 0,
+          "guard_false_like_direct": 0, "guard_false_differs_known_class": 0, "syncs": 0, "executes_checked_by_monitor": 0, "backend_msgs_compared": 0,
+          "known_classes_seen": {}}
+    for p, pr, r in zip(progs, preds, res):
+        rep = {"input": {"k": p["k"], "servers": p["servers"], "ops": p["ops"], "name": p["name"]}}
+        if "harness_error" in r:
+            r = W.run_scenario(wire, CW.scenario(p), timeout=180)
+            if "harness_error" in r:
+                run.broken.append("wire harness: %s on %s" % (r["harness_error"], p["name"]))
+                continue
+        obs = CW.observe(p, r)
+        if obs["reopened"]:
+            st["set_aside_reconnect"] += 1
+            continue
+        # (1) model-free monitor: never a wrong statement
+        if obs["monitor"]:
+            run.violation("counterexample", "an Execute ran a statement other than the one this client most recently prepared under the bound name: %s" % obs["monitor"][0],
+                          dict(rep, monitor=obs["monitor"], correspondence="monitor"))
+            return st
+        # (2) model = implementation (client replies and per-connection backend logs)
+        d = CW.diff(p, obs, pr)
+        if d:
+            run.violation("tie-broken", "cache model and pgcat differ on %s: %s" % (p["name"], d[0][:400]),
+                          dict(rep, correspondence="coq/Prep/Cache.v vs pgcat on the wire", differences=d[:6]))
+            return st
+        st["agree_with_model"] += 1
+        run.cov["traces_validated_against_impl"] += 1
+        a = CW.normalise_obs(obs)
+        st["syncs"] += sum(len(v) for v in a.values())
+        st["executes_checked_by_monitor"] += sum(1 for v in a.values() for _, rs in v for x in rs if isinstance(x, tuple) and x[0] == "RRow")
+        st["backend_msgs_compared"] += sum(len(v) for v in obs["conns"].values())
+        # (3) implementation vs a direct connection (the property itself), classified by the theorem's guard
+        spec = CW.normalise_obs({"clients": {c: [o for o in pr["direct_connection"] if o["client"] == c] for c in {o["client"] for o in pr["direct_connection"]}}})
+        like = all(pynorm(a.get(c, [])) == pynorm(spec.get(c, [])) for c in set(a) | set(spec))
+        if pr["guard"]:
+            st["guard_true"] += 1
+            if like:
+                st["guard_true_like_direct"] += 1
+            else:
+                run.violation("counterexample", "pgcat with statement caching differs from a direct connection on a program inside the guard of c08_refines_direct (%s)" % p["name"],
+                              dict(rep, impl={str(c): v for c, v in a.items()}, direct={str(c): v for c, v in spec.items()}))
+                return st
+        elif like:
+            st["guard_false_like_direct"] += 1
+        else:
+            cls = classify_gap(p)
+            if not cls:
+                run.violation("counterexample", "pgcat with statement caching differs from a direct connection on %s, outside every known class" % p["name"],
+                              dict(rep, impl={str(c): v for c, v in a.items()}, direct={str(c): v for c, v in spec.items()}))
+                return st
+            st["guard_false_differs_known_class"] += 1
+            for x in cls:
+                st["known_classes_seen"][x] = st["known_classes_seen"].get(x, 0) + 1
+    # every hand-made witness must still separate pgcat from a direct connection (else: fixed -> update the model)
+    return st
+
+
 # ------------------------------------------------------------------------------------------------ check
 def check(run):
     quick = run.tier == "quick"
@@ -827,9 +974,18 @@ def check(run):
             run.log("layer 2 (model vs direct-connection spec): %s" % l2)
         else:
             run.broken.append("coq/Prep/CacheObs.v does not compile: " + logc[-300:])
+    wt = {}
+    if not run.violations and l2:
+        wt = wire_tie(run, quick)
+        evals += wt.get("scenarios", 0)
+        run.log("layer 2 on the wire: %s" % wt)
+        for x in sorted(wt.get("known_classes_seen", {})):
+            if x.startswith("F11"):
+                run.known_finding("%s statement caching visible to clients (message sequence class, see DESIGN C08): seen in %d generated/hand-made scenarios" % (F11[x], wt["known_classes_seen"][x]), key=F11[x])
+    run.cov["layer2_wire"] = wt
     run.cov["layer2_model_level"] = l2
     run.cov["layer2_wire_scenarios"] = [{"name": w["name"], "cache_size": w["cache_size"], "servers": w["servers"], "ops": prog_coq(w["ops"]),
-                                         "needs_wire_confirmation": w["needs_wire_confirmation"], "why": w["why"],
+                                         "confirmed_on_wire": w["needs_wire_confirmation"], "why": w["why"],
                                          "model_client_obs": w["model"]["client_obs"], "direct_connection": w["model"]["direct_connection"]} for w in wire]
 
     for k, v in sorted(tie.findings.items()):
